@@ -32,8 +32,9 @@ EXTENDS ProviderLock, TraceBase
 
 VARIABLES s,      \* session being consumed (0 before the first)
           idx,    \* idx[t]: next call of thread t
-          g       \* next unconsumed provider seq
-tvars == <<s, idx, g, holder, poisoned, cache>>
+          g,      \* next unconsumed provider seq
+          pan     \* the panicking calls of the session, <<thread, phase, k>> (computed once when the session is opened)
+tvars == <<s, idx, g, pan, holder, poisoned, cache>>
 modelRest == <<pc, failed, order, n, cl, res, lk, afterFail, slot>>   \* PlusCal bookkeeping, not used at this grain
 
 S == Rec[s]
@@ -44,19 +45,20 @@ Nxt(th) == S.thr[th][idx[th]]
 SessionDone == IF s = 0 THEN TRUE ELSE \A th \in 1..NT : ~Pending(th)
 
 Min(X) == CHOOSE x \in X : \A y \in X : x <= y
-CurPh == Min({Nxt(th).ph : th \in {x \in 1..NT : Pending(x)}})
-Elig == {th \in 1..NT : Pending(th) /\ Nxt(th).ph = CurPh}
-NoEv == {th \in Elig : Len(Nxt(th).evs) = 0}
-\* the canonical schedule
-Chosen == IF NoEv # {} THEN Min(NoEv)
-          ELSE CHOOSE th \in Elig : \A o \in Elig : Nxt(th).evs[1].seq <= Nxt(o).evs[1].seq
+\* the canonical schedule: within the earliest unfinished phase, a call without provider events first
+\* (lowest thread), otherwise the call whose first provider event has the smallest seq
+Chosen == LET pend == {x \in 1..NT : Pending(x)}
+              cp   == Min({Nxt(x).ph : x \in pend})
+              elig == {x \in pend : Nxt(x).ph = cp}
+              noev == {x \in elig : Len(Nxt(x).evs) = 0}
+              low  == Min({Nxt(x).evs[1].seq : x \in elig})
+          IN IF noev # {} THEN Min(noev) ELSE CHOOSE x \in elig : Nxt(x).evs[1].seq = low
 
 \* ---- happens-before available from the log: program order and barriers
 IsPanic(c) == c.f.kind = "panic" \/ c.out.kind = "panic"
-PanicSurelyBefore(th, c) == \E t2 \in 1..NT : \E j \in 1..Len(S.thr[t2]) :
-   LET d == S.thr[t2][j] IN IsPanic(d) /\ (d.ph < c.ph \/ (t2 = th /\ d.k < c.k))
-PanicMaybeBefore(th, c) == \E t2 \in 1..NT : \E j \in 1..Len(S.thr[t2]) :
-   LET d == S.thr[t2][j] IN IsPanic(d) /\ (d.ph < c.ph \/ (t2 = th /\ d.k < c.k) \/ (t2 # th /\ d.ph = c.ph))
+PanicsOf(r) == UNION {{<<t2, r.thr[t2][j].ph, r.thr[t2][j].k>> : j \in {x \in 1..Len(r.thr[t2]) : IsPanic(r.thr[t2][x])}} : t2 \in 1..Len(r.thr)}
+PanicSurelyBefore(th, c) == \E d \in pan : d[2] < c.ph \/ (d[1] = th /\ d[3] < c.k)
+PanicMaybeBefore(th, c) == \E d \in pan : d[2] < c.ph \/ (d[1] = th /\ d[3] < c.k) \/ (d[1] # th /\ d[2] = c.ph)
 
 \* ---- the checks on one call
 OrderOK(th, c) == c.k = idx[th] /\ (idx[th] > 1 => S.thr[th][idx[th] - 1].ph <= c.ph)
@@ -91,11 +93,12 @@ LastSeq(c) == IF Len(c.evs) = 0 THEN g - 1 ELSE Min({x \in {g - 1} \cup {c.evs[i
 Explained(th, c) == ClsOf(th, c) = "-"
 
 TInit == /\ Init
-         /\ s = 0 /\ idx = << >> /\ g = 1
+         /\ s = 0 /\ idx = << >> /\ g = 1 /\ pan = {}
 
 Open == /\ SessionDone /\ s < NEv
         /\ s' = s + 1
         /\ idx' = [th \in 1..Len(Rec[s + 1].thr) |-> 1]
+        /\ pan' = PanicsOf(Rec[s + 1])
         /\ g' = 1 /\ cache' = {} /\ poisoned' = FALSE /\ holder' = None      \* a fresh process
 
 Consume == /\ ~SessionDone
@@ -111,7 +114,7 @@ Consume == /\ ~SessionDone
                  /\ cache' = cache \cup {c.evs[i].zone : i \in {x \in 1..Len(c.evs) : c.evs[x].zone \in Known}}
                  /\ poisoned' = (poisoned \/ IsPanic(c))
                  /\ g' = LastSeq(c) + 1
-                 /\ s' = s
+                 /\ s' = s /\ pan' = pan
 
 TNext == (Open \/ Consume) /\ UNCHANGED modelRest
 TSpec == TInit /\ [][TNext]_<<tvars, modelRest>>
